@@ -324,6 +324,9 @@ func (p *Packet) Bytes() []byte {
 
 // ChannelInfo returns the number of channels in this packet, and the first one
 func (p *Packet) ChannelInfo() (nchan, offset int) {
+	if p.shape == nil {
+		return 0, int(p.offset) // no shape TLV: the packet carries no channels
+	}
 	nchan = 1
 	for _, s := range p.shape.Sizes {
 		if s > 0 {
